@@ -424,7 +424,7 @@ static void run_local_add(void)
 	int org = xp_choose(ORG_COUNT, XP_SCENARIO, "origin");
 	int listener = xp_choose(3, XP_SCENARIO, "listener"); /* 0 jet tcp, 1 websocket, 2 unix socket */
 	int fi = xp_choose((int)sizeof(FILLS), XP_SCENARIO, "fresh-memory-fill");
-	static const char *const ORGN[] = {"default", "::1", "::ffff:127.0.0.1", "::ffff:127.0.0.2", "::ffff:10.0.0.1", "2001:db8::1", "127.0.0.1 (AF_INET)", "127.0.0.2 (AF_INET)", "remote (AF_INET)", "AF_UNIX unnamed", "AF_UNIX abstract, bytes imitating ::1"};
+	static const char *const ORGN[] = {"default", "::1", "::ffff:127.0.0.1", "::ffff:127.0.0.2", "::ffff:10.0.0.1", "2001:db8::1", "127.0.0.1 (AF_INET)", "127.0.0.2 (AF_INET)", "remote (AF_INET)", "AF_UNIX unnamed", "AF_UNIX abstract, bytes imitating ::1", "fd00::7f00:1", "1:2:3:4:5:ffff:7f00:1", "::127.0.0.1", "8000::1", "::"};
 	int lo = xp_choose(2, XP_SCENARIO, "listener-setup"); /* 1: daemon started with -l (separate AF_INET and AF_INET6 loopback listeners) */
 	bool unix_org = org == ORG_UNIX_UNNAMED || org == ORG_UNIX_ABSTRACT_ADV;
 	bool v4_org = org == ORG_V4_LOOP || org == ORG_V4_127_2 || org == ORG_V4_REMOTE;
@@ -584,6 +584,6 @@ const struct driver drv_c08 = {
     .name = "c08",
     .property = "C08",
     .run = run,
-    .rule = "section 0: credential file with 6 users (group sets over g1..g3, auth objects that omit keys, an admin, a user without groups); 15 elements declaring fetch/set/call groups {none, g1, g2, g1+g2, mixed fetch/set, g3, an undefined group, fetch only, call only}; every sequence up to the depth bound of 10 authenticate actions (right, wrong password, another user's password, unknown user, six users) x 3 transports x 5 fill bytes of fresh heap memory x {probe suite only at the end, also before the last action}; probe suite = fetch all + get all + the owner adding / changing / removing four further elements while the fetch is active + set every state + call every method; oracle: everything delivered / routed is covered by the groups of the last successful authentication (none if there was none), wrong credentials are refused, sequences with failing attempts grant exactly what the twin without them grants, password markers occur in no output byte and no log line; section 1: files with 30..33 groups x user group x element group over {0,1,15,29,30,31} x transport (bit 31 and beyond); section 2: add from 11 connection origins on the 3 listeners x fill bytes in the local-only build; section 3: an account whose password member is one of 13 forms (complete hash, '*', '!', empty, 'x', salts without hash, DES salt, hash cut / extended by one character, upper-cased hash, libcrypt failure tokens) x 8 offered passwords (the real one, a guess, empty, '*', '*0', '*1', the stored member itself, 'x') x 3 transports: success iff crypt(offered, stored) equals the stored member, a refused attempt grants neither get, fetch nor set; non-trivial = all runs",
+    .rule = "section 0: credential file with 6 users (group sets over g1..g3, auth objects that omit keys, an admin, a user without groups); 15 elements declaring fetch/set/call groups {none, g1, g2, g1+g2, mixed fetch/set, g3, an undefined group, fetch only, call only}; every sequence up to the depth bound of 10 authenticate actions (right, wrong password, another user's password, unknown user, six users) x 3 transports x 5 fill bytes of fresh heap memory x {probe suite only at the end, also before the last action}; probe suite = fetch all + get all + the owner adding / changing / removing four further elements while the fetch is active + set every state + call every method; oracle: everything delivered / routed is covered by the groups of the last successful authentication (none if there was none), wrong credentials are refused, sequences with failing attempts grant exactly what the twin without them grants, password markers occur in no output byte and no log line; section 1: files with 30..33 groups x user group x element group over {0,1,15,29,30,31} x transport (bit 31 and beyond); section 2: add from 16 connection origins (incl. five IPv6 near misses of ::1 and ::ffff:127.0.0.1) on the 3 listeners x fill bytes in the local-only build; section 3: an account whose password member is one of 13 forms (complete hash, '*', '!', empty, 'x', salts without hash, DES salt, hash cut / extended by one character, upper-cased hash, libcrypt failure tokens) x 8 offered passwords (the real one, a guess, empty, '*', '*0', '*1', the stored member itself, 'x') x 3 transports: success iff crypt(offered, stored) equals the stored member, a refused attempt grants neither get, fetch nor set; non-trivial = all runs",
     .assumptions = "only the safety direction of the statement is judged (a grant must be covered by a group); denied accesses are counted, not judged|a credential file with more than 32 groups may be refused at start-up",
 };
